@@ -3,10 +3,18 @@ LEMMA_MODULE = {}
 def _reg(mod, names):
     for n in names: LEMMA_MODULE[n] = mod
 _reg('blake', ['B1', 'B2', 'B3', 'B4', 'B5'])
+_reg('argon', ['G1', 'G2'])
+_reg('aes', ['A1', 'A2', 'A3', 'A5'])
 
 PROPS = {
  'C11': dict(level='other', lemmas=['B1', 'B2', 'B3', 'B4', 'B5'],
    files=['src/blake2/blake2b.c', 'src/blake2/blake2.h', 'src/blake2/blake2-impl.h', 'src/blake2/endian.h', 'src/randomx.cpp'],
    explanation='Blake2b conformance is decomposed into lemmas over the real functions of src/blake2/blake2b.c lowered to LLVM IR on this run: B1 the compression function equals RFC 7693 F for all inputs (term-level equivalence); B2 one blake2b_update call from an arbitrary valid state equals the byte-wise RFC streaming semantics for every (buflen, inlen) inside the bound, with the compression function abstracted to an uninterpreted function (sound by B1) and an arbitrary 128-bit counter (covers totals beyond 2^32 and 2^64 carries) - because the reference is a fold over bytes, every chunking of a message gives the same state; B3 blake2b_final equals the RFC final step and writes exactly outlen bytes; B4 init/init_key build the RFC parameter block over arbitrary stale memory, invalid parameters are rejected, and the one-shot blake2b() is init;update;final with rejected calls never writing; B5 the commitment is Blake2b-256(input||hash). The composition of the lemmas into the end-to-end statement is a paper argument (DESIGN.md 6/C11).',
    trusted=['RFC 7693 transcription in spec/blake2b_ref.py (self-tested against hashlib)'], outside=['single update calls longer than the stated bound; composition of lemmas is on paper']),
+ 'C10': dict(level='other', lemmas=['G1', 'G2', 'B1'],
+   files=['src/dataset.cpp', 'src/argon2_core.c', 'src/argon2_ref.c', 'src/argon2_ssse3.c', 'src/argon2_avx2.c', 'src/blake2/blamka-round-ref.h', 'src/blake2/blamka-round-ssse3.h', 'src/blake2/blamka-round-avx2.h', 'src/blake2/blake2b.c'],
+   explanation='TODO', trusted=['RFC 9106 transcription in spec/argon2_ref.py'], outside=[]),
+ 'C12': dict(level='other', lemmas=['A1', 'A2', 'A3', 'A5'],
+   files=['src/aes_hash.cpp', 'src/aes_hash.hpp', 'src/soft_aes.cpp', 'src/soft_aes.h', 'src/intrin_portable.h', 'src/virtual_machine.cpp', 'src/asm/program_loop_store_hard_aes.inc', 'src/asm/program_loop_store_soft_aes.inc', 'doc/specs.md'],
+   explanation='TODO', trusted=['FIPS-197 transcription in spec/aes_ref.py (self-tested on the FIPS-197 appendix B vector)', 'Intel SDM: AESENC/AESDEC == FIPS-197 round / inverse round'], outside=[]),
 }
